@@ -433,6 +433,23 @@ NESTED = ["{:{}d}", "{:>{}}", "{:0{}x}", "{0:{1}d}", "{1:{0}x}", "{:<{}b}"]
 ENV4 = [(4, False), (4, True), (1, False), (8, False)]
 
 
+_ENUM = []
+
+
+def ENUM_CLASS():
+    if not _ENUM:
+        from amaranth.lib import enum as aenum
+
+        class Mode(aenum.Enum, shape=4):
+            IDLE = 0
+            DÉBUT = 1
+            zwölf = 12
+            Ω = 7
+            пять = 5
+        _ENUM.append(Mode)
+    return _ENUM[0]
+
+
 def gen_template(rng, nfields=None):
     """-> (format template, [value expression IR]) with literal braces, several fields and constant messages"""
     n = rng.choice([0, 0, 1, 1, 2, 3]) if nfields is None else nfields
@@ -512,9 +529,16 @@ def run_messages(rng, out):
             if rng.random() < 0.6:
                 parts = []
                 for _ in range(rng.randrange(1, 4)):
-                    if rng.random() < 0.3:
+                    x_ = rng.random()
+                    if x_ < 0.3:
                         e = X.gen_expr(rng, ENV4, rng.choice([0, 1]))
                         parts.append((B(e), (lambda vals, e=e: "{}".format(R(e, vals))), ["value", e]))
+                    elif x_ < 0.42:
+                        # an enumeration-typed view of a signal prints the member's name (names need not be ASCII),
+                        # or "[unknown]" for a value that is no member
+                        ev = ENUM_CLASS()(sigs[0])
+                        names = {m_.value: m_.name for m_ in ENUM_CLASS()}
+                        parts.append((ev, (lambda vals: names.get(vals[0] & 15, "[unknown]")), ["enum-view"]))
                     else:
                         parts.append(gen_message())
                 sep, end = rng.choice([" ", " ", "", ", ", "{}", "{{"]), rng.choice(["\n", ";", "", "}", "{}\n"])
